@@ -12,7 +12,7 @@ use std::cmp::Ordering;
 
 use super::error::{Result, SvmError};
 use super::permutable_kernel::{PermutableKernel, PermutableKernelOneClass};
-use super::solver_smo::SolverState;
+use super::solver_smo::{SeparatingHyperplane, SolverState};
 use super::SolverParams;
 use super::{Float, Svm, SvmValidParams};
 use linfa_kernel::Kernel;
@@ -157,6 +157,10 @@ pub fn fit_nu<F: Float>(
         .collect();
     res.rho /= r;
     res.obj /= r * r;
+    // the explicit hyperplane of the linear kernel carries the same scaling as the coefficients
+    if let SeparatingHyperplane::Linear(ref mut w) = res.sep_hyperplane {
+        w.mapv_inplace(|x| x / r);
+    }
 
     res
 }
